@@ -9,7 +9,7 @@ CHECKS = {
   "Trusts the reference model/codec in harness/src/{model,refcodec}.rs; unlimited cache; free-running worker.",
   "property-based testing (proptest): stateful model-based + metamorphic re-run under a second configuration", "DESIGN.md §4 C01"),
  "C02": ("exploration",
-  "Generated histories with close/open cycles at arbitrary positions under re-drawn chunk and cache limits; state, all entries and the offline dump must be identical across each restart and the history continues under the model oracle.",
+  "Generated histories (incl. update_state() and flush(None)) with close/open cycles at arbitrary positions under re-drawn chunk and cache limits; state, all entries and the offline dump must be identical across each restart and the history continues under the model oracle.",
   "Clean restart = flush acked Ok + worker idle + drop + worker thread gone. Known C07 class (re-append at or below an earlier id under a finite cache) excluded by construction, count reported.",
   "property-based testing (proptest): stateful model-based with restart round-trip", "DESIGN.md §4 C02"),
  "C06": ("exploration",
@@ -17,7 +17,7 @@ CHECKS = {
   "Rejection classes as listed in the property; worker idle around the rejected call so that asynchronous boundary updates cannot blur the comparison.",
   "property-based testing (proptest): stateful model-based, before/after invariance + differential journal", "DESIGN.md §4 C06"),
  "C11": ("exploration",
-  "Differential check of the directory against an independent reference encoder and rotation rule after every settled flush (names, bytes, abutting offsets), of each returned segment, on_disk_size, stat() and dump(); plus the file-name codec on boundary/generated u64 offsets.",
+  "Differential check of the directory against an independent reference encoder and rotation rule after every settled flush (names, bytes, abutting offsets), of each returned segment, on_disk_size, stat() and dump(); plus the file-name codec on boundary/generated u64 offsets. Half of the cases run with worker faults that must not change the journal (failing fdatasyncs, short writes, EINTR) and failing chunk-file creations on the caller thread (after which layout-independent journal invariants are checked: files abut, decode completely, start with a State record, end at the reported journal end).",
   "Reference encoder/formatter in harness/src/refcodec.rs; compared only after flush + worker idle.",
   "property-based testing (proptest): differential against a reference encoder/layout model", "DESIGN.md §4 C11"),
  "C16": ("exploration",
@@ -25,7 +25,7 @@ CHECKS = {
   "Only panics are judged after an unmodelled probe. Known class index-near-u64max (known_findings.json) is reported as KNOWN-FINDING and ends the affected case.",
   "property-based testing (proptest): boundary-value argument fuzzing over reachable states, panic oracle", "DESIGN.md §4 C16"),
  "C07": ("exploration",
-  "Generated histories x cache limits incl. 0 x generated worker schedules: the flush worker is gated at every write/fdatasync/unlink/callback, reads (range, full, snapshot iteration, concurrent reader threads) are checked against the model after every op and every single worker step, across restarts; half of the cases add worker I/O faults (failed / short / torn writes, failed syncs) after which everything the store returns must still be what was supplied.",
+  "Generated histories x cache limits incl. 0 x generated worker schedules: the flush worker is gated at every write/fdatasync/unlink/callback, reads (range, full, snapshot iteration, concurrent reader threads) are checked against the model after every op and every single worker step, across restarts; half of the cases add worker I/O faults (failed / short / torn writes, failed syncs) after which everything the store returns must still be what was supplied; four shards add a free-running drain stress (hundreds of queued flushes, four reader threads reading until the worker is idle).",
   "Worker schedules at file-system-call granularity, caller at operation granularity; finer races only stressed. Re-appends at or below an earlier id are part of the search: the known finding (known_findings.json) is recognised by its exact input class — a live entry not yet safely on disk whose id is at or below the eviction boundary the unchanged design has at that moment, computed from the expected layout and the traced worker syncs — and a read error outside that window is a violation.",
   "property-based testing (proptest): stateful model-based over generated schedules (gated worker via libc interposition)", "DESIGN.md §4 C07"),
  "C15": ("exploration",
@@ -45,7 +45,7 @@ CHECKS = {
   "Single incarnation for fault histories; a later successful fdatasync counts as covering earlier written bytes.",
   "property-based testing (proptest) + fault injection and schedule control through libc interposition, trace oracle over a shadow file system", "DESIGN.md §4 C04"),
  "C08": ("fault_enumeration",
-  "Purge-heavy generated histories x worker schedules x fdatasync / unlink fault plans (one case in three ends with a plain drop instead of a final flush); at every unlink in the trace: oldest-first, durable-image crash check right after the unlink (with and without the deleted file), no hole among remaining files; at a clean end the remaining files replay (reference decoder) to the model state and every provably obsolete closed chunk is gone.",
+  "Purge-heavy generated histories (incl. flush(None)) x worker schedules x fdatasync / write / unlink fault plans (one case in three ends with a plain drop instead of a final flush); at every unlink in the trace: oldest-first, durable-image crash check right after the unlink (with and without the deleted file), no hole among remaining files; at a clean end the remaining files replay (reference decoder) to the model state and every provably obsolete closed chunk is gone.",
   "Liveness clause in its conservative reading (see DESIGN.md); images in the known C05 rotation-gap class skipped in the crash sub-check.",
   "property-based testing (proptest) + fault/crash enumeration at unlink events, metamorphic (with/without file) and model-prefix oracles", "DESIGN.md §4 C08"),
  "C14": ("exploration",
@@ -65,7 +65,7 @@ CHECKS = {
   "Reference codec written from the format description; libFuzzer campaign pinned only approximately by -seed/-runs, its saved inputs are the reproducible unit.",
   "property-based testing (proptest) round-trip + differential decoding; coverage-guided fuzzing (cargo-fuzz/libFuzzer) with in-target differential oracle", "DESIGN.md §4 C12"),
  "C13": ("exploration",
-  "Generated programs over 2-5 contenders (threads and child processes) acting simultaneously in rounds (RaftLog::open / Dump::new / drop) on a directory whose newest chunk is torn before every round; interleaving-independent oracle: at most one owner, refusals while owned, exactly one grant on a free directory, success after drop, files untouched by refusals and equal to exactly one recovery after a grant; owners use what they opened (a Dump owner dumps); an owner that appended, purged and flushed and whose flush worker has stopped on a vanished chunk file still owns the directory; a hammer phase with a witness file.",
+  "Generated programs over 2-5 contenders (threads and child processes) acting simultaneously in rounds (RaftLog::open / Dump::new / drop) on a directory whose newest chunk is torn before every round; interleaving-independent oracle: at most one owner, refusals while owned, exactly one grant on a free directory, success after drop, files untouched by refusals and equal to exactly one recovery after a grant; owners use what they opened (a Dump owner dumps); an owner that appended, purged and flushed and whose flush worker has stopped on a vanished chunk file still owns the directory, and a dump_data() snapshot that outlives it does not; a hammer phase with a witness file.",
   "Kernel interleavings inside flock are stressed (barrier, many programs), not enumerated.",
   "property-based testing (proptest): generated concurrent programs over real threads and processes, interleaving-independent invariants", "DESIGN.md §4 C13"),
 }
